@@ -250,4 +250,514 @@ theorem nextToken_safe (inp : B) :
               simp only [List.length_take, List.length_cons] at hlt ⊢
               omega
 
+/-! ### shape of the trees the parser builds -/
+
+def isTextAtom : Q → Bool
+  | .substr .. => true
+  | .regexp .. => true
+  | _ => false
+
+mutual
+/-- a tree made only of node kinds that every consumer knows, parse-time `caseScopeQ` wrappers allowed -/
+def cleanS : Q → Bool
+  | .and cs => cleanSList cs
+  | .or cs => cleanSList cs
+  | .not c => cleanS c
+  | .type _ c => cleanS c
+  | .caseScope c => cleanS c
+  | .sym e => isTextAtom e
+  | .nil => false
+  | .caseQ _ => false
+  | .orOp => false
+  | _ => true
+def cleanSList : List Q → Bool
+  | [] => true
+  | q :: qs => cleanS q && cleanSList qs
+end
+
+mutual
+/-- a tree made only of And/Or/Not/Type over Const, Substring, Regexp, Repo, RawConfig, Branch, Language,
+    Symbol(Substring|Regexp), Meta: no nil child, no parse-time node -/
+def clean : Q → Bool
+  | .and cs => cleanList cs
+  | .or cs => cleanList cs
+  | .not c => clean c
+  | .type _ c => clean c
+  | .sym e => isTextAtom e
+  | .nil => false
+  | .caseQ _ => false
+  | .orOp => false
+  | .caseScope _ => false
+  | _ => true
+def cleanList : List Q → Bool
+  | [] => true
+  | q :: qs => clean q && cleanList qs
+end
+
+theorem cleanSList_iff (qs : List Q) : cleanSList qs = true ↔ ∀ q ∈ qs, cleanS q = true := by
+  induction qs with
+  | nil => simp [cleanSList]
+  | cons q qs ih => simp [cleanSList, ih]
+
+theorem cleanList_iff (qs : List Q) : cleanList qs = true ↔ ∀ q ∈ qs, clean q = true := by
+  induction qs with
+  | nil => simp [cleanList]
+  | cons q qs ih => simp [cleanList, ih]
+
+/-- a bare directive token: `case:x`, or `type:x` (whose child is still nil) -/
+def isDirTok : Q → Bool
+  | .caseQ _ => true
+  | .type _ .nil => true
+  | _ => false
+
+/-- what `parseExprList`'s token loop collects -/
+def itemOk (q : Q) : Bool := isOrOp q || isDirTok q || cleanS q
+
+/-- what `parseExprList` returns, and what `parseOperators` takes -/
+def operandOk (q : Q) : Bool := isOrOp q || cleanS q
+
+theorem isDirTok_isDirective {q : Q} (h : isDirTok q = true) : isDirective q = true := by
+  cases q <;> simp_all [isDirTok, isDirective]
+
+theorem cleanS_not_orOp {q : Q} (h : cleanS q = true) : isOrOp q = false := by
+  cases q <;> simp_all [cleanS, isOrOp]
+
+/-! #### setCase keeps the shape -/
+
+theorem setCaseAtom_substr (k p : B) (cs f c : Bool) (s : B) :
+    ∃ cs', setCaseAtom k (.substr p cs f c s) = .substr p cs' f c s := by
+  simp only [setCaseAtom]
+  split
+  · exact ⟨_, rfl⟩
+  · split
+    · exact ⟨_, rfl⟩
+    · split <;> exact ⟨_, rfl⟩
+
+theorem setCaseAtom_regexp (k r : B) (e a cs f c : Bool) (s : B) :
+    ∃ cs', setCaseAtom k (.regexp r e a cs f c s) = .regexp r e a cs' f c s := by
+  simp only [setCaseAtom]
+  split
+  · exact ⟨_, rfl⟩
+  · split
+    · exact ⟨_, rfl⟩
+    · split <;> exact ⟨_, rfl⟩
+
+theorem isTextAtom_setCaseAtom (k : B) (q : Q) : isTextAtom (setCaseAtom k q) = isTextAtom q := by
+  cases q
+  case substr p cs f c s => obtain ⟨cs', h⟩ := setCaseAtom_substr k p cs f c s; rw [h]; rfl
+  case regexp r e a cs f c s => obtain ⟨cs', h⟩ := setCaseAtom_regexp k r e a cs f c s; rw [h]; rfl
+  all_goals rfl
+
+theorem cleanS_setCaseAtom (k : B) (q : Q) : cleanS (setCaseAtom k q) = cleanS q := by
+  cases q
+  case substr p cs f c s => obtain ⟨cs', h⟩ := setCaseAtom_substr k p cs f c s; rw [h]; simp [cleanS]
+  case regexp r e a cs f c s => obtain ⟨cs', h⟩ := setCaseAtom_regexp k r e a cs f c s; rw [h]; simp [cleanS]
+  all_goals rfl
+
+theorem isOrOp_setCaseAtom (k : B) (q : Q) : isOrOp (setCaseAtom k q) = isOrOp q := by
+  cases q
+  case substr p cs f c s => obtain ⟨cs', h⟩ := setCaseAtom_substr k p cs f c s; rw [h]; rfl
+  case regexp r e a cs f c s => obtain ⟨cs', h⟩ := setCaseAtom_regexp k r e a cs f c s; rw [h]; rfl
+  all_goals rfl
+
+mutual
+theorem cleanS_setCase (k : B) : ∀ q, cleanS (setCase k q) = cleanS q
+  | .and cs => by simp [setCase, cleanS, cleanSList_setCaseList k cs]
+  | .or cs => by simp [setCase, cleanS, cleanSList_setCaseList k cs]
+  | .not c => by simp [setCase, cleanS, cleanS_setCase k c]
+  | .type t c => by simp [setCase, cleanS, cleanS_setCase k c]
+  | .sym e => by simp [setCase, cleanS, isTextAtom_setCaseAtom]
+  | .nil => by simp [setCase, setCaseAtom]
+  | .const _ => by simp [setCase, setCaseAtom]
+  | .substr .. => by simp only [setCase]; exact cleanS_setCaseAtom _ _
+  | .regexp .. => by simp only [setCase]; exact cleanS_setCaseAtom _ _
+  | .repo _ => by simp [setCase, setCaseAtom]
+  | .rawConfig _ => by simp [setCase, setCaseAtom]
+  | .branch _ => by simp [setCase, setCaseAtom]
+  | .lang _ => by simp [setCase, setCaseAtom]
+  | .metaQ .. => by simp [setCase, setCaseAtom]
+  | .caseQ _ => by simp [setCase, setCaseAtom]
+  | .orOp => by simp [setCase, setCaseAtom]
+  | .caseScope _ => by simp [setCase, setCaseAtom]
+theorem cleanSList_setCaseList (k : B) : ∀ qs, cleanSList (setCaseList k qs) = cleanSList qs
+  | [] => by simp [setCaseList]
+  | q :: qs => by simp [setCaseList, cleanSList, cleanS_setCase k q, cleanSList_setCaseList k qs]
+end
+
+theorem isOrOp_setCase (k : B) (q : Q) : isOrOp (setCase k q) = isOrOp q := by
+  cases q
+  case substr p cs f c s => simp only [setCase]; exact isOrOp_setCaseAtom _ _
+  case regexp r e a cs f c s => simp only [setCase]; exact isOrOp_setCaseAtom _ _
+  all_goals simp [setCase, setCaseAtom, isOrOp]
+
+theorem operandOk_setCaseList (k : B) : ∀ qs : List Q, (∀ q ∈ qs, operandOk q = true) →
+    ∀ q ∈ setCaseList k qs, operandOk q = true
+  | [], _ => by simp [setCaseList]
+  | q :: qs, h => by
+    intro x hx
+    simp only [setCaseList, List.mem_cons] at hx
+    rcases hx with rfl | hx
+    · have := h q (by simp)
+      simpa [operandOk, isOrOp_setCase, cleanS_setCase] using this
+    · exact operandOk_setCaseList k qs (fun y hy => h y (by simp [hy])) x hx
+
+/-! #### atoms, parseOperators, the post-processing of parseExprList -/
+
+theorem regexpQuery_safe (O : Oracle) (text : B) (c f : Bool) :
+    Safe (regexpQuery O text c f) (fun q => isTextAtom q = true) := by
+  unfold regexpQuery
+  split <;> simp [Safe, isTextAtom]
+
+theorem yesNo_safe (text : B) (y n : Nat) (w : String) :
+    Safe (yesNo text y n w) (fun r => ∀ q, r = some q → (isDirTok q = true ∨ cleanS q = true)) := by
+  unfold yesNo
+  split
+  · simp [Safe, cleanS]
+  · split <;> simp [Safe, cleanS]
+
+theorem isTextAtom_cleanS {q : Q} (h : isTextAtom q = true) : cleanS q = true := by
+  cases q <;> simp_all [isTextAtom, cleanS]
+
+theorem atomOf_safe (O : Oracle) (tok : Token) :
+    Safe (atomOf O tok) (fun r => ∀ q, r = some q → (isDirTok q = true ∨ cleanS q = true)) := by
+  unfold atomOf
+  have hrq : ∀ c f, Safe ((regexpQuery O tok.text c f).bind fun q => Outcome.ok (some q))
+      (fun r => ∀ q, r = some q → (isDirTok q = true ∨ cleanS q = true)) := by
+    intro c f
+    refine (regexpQuery_safe O tok.text c f).bind ?_
+    intro q hq
+    simp only [Safe]
+    intro q' h'
+    cases h'
+    exact Or.inr (isTextAtom_cleanS hq)
+  by_cases h1 : tok.typ = tokCase
+  · rw [if_pos h1]; split <;> simp [Safe, isDirTok]
+  rw [if_neg h1]
+  by_cases h2 : tok.typ = tokRepo
+  · rw [if_pos h2]; split <;> simp [Safe, cleanS]
+  rw [if_neg h2]
+  by_cases h3 : tok.typ = tokArchived
+  · rw [if_pos h3]; exact yesNo_safe _ _ _ _
+  rw [if_neg h3]
+  by_cases h4 : tok.typ = tokFork
+  · rw [if_pos h4]; exact yesNo_safe _ _ _ _
+  rw [if_neg h4]
+  by_cases h5 : tok.typ = tokPublic
+  · rw [if_pos h5]; exact yesNo_safe _ _ _ _
+  rw [if_neg h5]
+  by_cases h6 : tok.typ = tokBranch
+  · rw [if_pos h6]; simp [Safe, cleanS]
+  rw [if_neg h6]
+  by_cases h7 : tok.typ = tokText ∨ tok.typ = tokRegex
+  · rw [if_pos h7]; exact hrq _ _
+  rw [if_neg h7]
+  by_cases h8 : tok.typ = tokFile
+  · rw [if_pos h8]; exact hrq _ _
+  rw [if_neg h8]
+  by_cases h9 : tok.typ = tokContent
+  · rw [if_pos h9]; exact hrq _ _
+  rw [if_neg h9]
+  by_cases h10 : tok.typ = tokLang
+  · rw [if_pos h10]; split <;> simp [Safe, cleanS]
+  rw [if_neg h10]
+  by_cases h11 : tok.typ = tokSym
+  · rw [if_pos h11]
+    split
+    · exact Safe.err
+    · refine (regexpQuery_safe O tok.text _ _).bind ?_
+      intro q hq
+      simp [Safe, cleanS, hq]
+  rw [if_neg h11]
+  by_cases h12 : tok.typ = tokType
+  · rw [if_pos h12]
+    split
+    · simp [Safe, isDirTok]
+    · split
+      · simp [Safe, isDirTok]
+      · split <;> simp [Safe, isDirTok]
+  rw [if_neg h12]
+  by_cases h13 : tok.typ = tokMeta
+  · rw [if_pos h13]
+    split
+    · exact Safe.err
+    · split <;> simp [Safe, cleanS]
+  rw [if_neg h13]
+  simp [Safe]
+theorem poLoop_safe : ∀ (qs top cur : List Q) (seen : Bool),
+    (∀ q ∈ qs, operandOk q = true) → (∀ q ∈ top, cleanS q = true) → (∀ q ∈ cur, cleanS q = true) →
+    Safe (poLoop qs top cur seen) (fun r => (∀ q ∈ r.1, cleanS q = true) ∧ (∀ q ∈ r.2.1, cleanS q = true))
+  | [], top, cur, seen, _, ht, hc => by simp [poLoop, Safe]; exact ⟨ht, hc⟩
+  | q :: rest, top, cur, seen, hq, ht, hc => by
+    unfold poLoop
+    split
+    · split
+      · exact Safe.err
+      · refine poLoop_safe rest _ [] true (fun x hx => hq x (by simp [hx])) ?_ (by simp)
+        intro x hx
+        simp only [List.mem_append, List.mem_singleton] at hx
+        rcases hx with hx | rfl
+        · exact ht x hx
+        · simp only [cleanS]; exact (cleanSList_iff cur).mpr hc
+    · rename_i hnot
+      refine poLoop_safe rest top _ seen (fun x hx => hq x (by simp [hx])) ht ?_
+      intro x hx
+      simp only [List.mem_append, List.mem_singleton] at hx
+      rcases hx with hx | rfl
+      · exact hc x hx
+      · have := hq x (by simp)
+        simp only [operandOk, Bool.or_eq_true] at this
+        rcases this with h | h
+        · exact absurd h hnot
+        · exact h
+
+theorem parseOperators_safe (qs : List Q) (h : ∀ q ∈ qs, operandOk q = true) :
+    Safe (parseOperators qs) (fun q => cleanS q = true) := by
+  unfold parseOperators
+  refine (poLoop_safe qs [] [] false h (by simp) (by simp)).bind ?_
+  intro r ⟨h1, h2⟩
+  split
+  · exact Safe.err
+  · simp only [Safe, cleanS]
+    rw [cleanSList_iff]
+    intro x hx
+    simp only [List.mem_append, List.mem_singleton] at hx
+    rcases hx with hx | rfl
+    · exact h1 x hx
+    · simp only [cleanS]; exact (cleanSList_iff _).mpr h2
+
+theorem scanDirectives_ok : ∀ (qs : List Q) (k : B) (hs : Bool) (t : Nat) (acc : List Q),
+    (∀ q ∈ qs, itemOk q = true) → (∀ q ∈ acc, operandOk q = true) →
+    ∀ q ∈ (scanDirectives qs k hs t acc).2.2.2, operandOk q = true
+  | [], k, hs, t, acc, _, ha => by simpa [scanDirectives] using ha
+  | q :: rest, k, hs, t, acc, hq, ha => by
+    have hrest : ∀ x ∈ rest, itemOk x = true := fun x hx => hq x (by simp [hx])
+    have hq0 := hq q (by simp)
+    cases q
+    case caseQ f => simp only [scanDirectives]; exact scanDirectives_ok rest _ _ _ _ hrest ha
+    case type ty c => simp only [scanDirectives]; exact scanDirectives_ok rest _ _ _ _ hrest ha
+    all_goals
+      simp only [scanDirectives]
+      refine scanDirectives_ok rest _ _ _ _ hrest ?_
+      intro x hx
+      simp only [List.mem_append, List.mem_singleton] at hx
+      rcases hx with hx | rfl
+      · exact ha x hx
+      · simpa [itemOk, operandOk, isDirTok] using hq0
+
+theorem wrapScopes_ok : ∀ qs : List Q, (∀ q ∈ qs, operandOk q = true) → ∀ q ∈ wrapScopes qs, operandOk q = true
+  | [], _ => by simp [wrapScopes]
+  | q :: rest, h => by
+    intro x hx
+    simp only [wrapScopes, List.mem_cons] at hx
+    rcases hx with rfl | hx
+    · have hq := h q (by simp)
+      split
+      · exact hq
+      · rename_i hn
+        simp only [operandOk, Bool.or_eq_true] at hq ⊢
+        rcases hq with hq | hq
+        · exact absurd hq hn
+        · right; simpa [cleanS] using hq
+    · exact wrapScopes_ok rest (fun y hy => h y (by simp [hy])) x hx
+
+theorem finishList_safe (qs : List Q) (h : ∀ q ∈ qs, itemOk q = true) :
+    Safe (finishList qs) (fun r => ∀ q ∈ r, operandOk q = true) := by
+  unfold finishList
+  simp only
+  have h1 := scanDirectives_ok qs bAuto false 100 [] h (by simp)
+  have h2 := operandOk_setCaseList (scanDirectives qs bAuto false 100 []).1 _ h1
+  refine Safe.bind (P := fun r => ∀ q ∈ r, operandOk q = true) ?_ ?_
+  · split
+    · refine (parseOperators_safe _ h2).bind ?_
+      intro typed ht
+      simp only [Safe]
+      intro q hq
+      simp only [List.mem_singleton] at hq
+      subst hq
+      simp [operandOk, cleanS, ht]
+    · exact Safe.ok h2
+  · intro r hr
+    simp only [Safe]
+    split
+    · exact wrapScopes_ok r hr
+    · exact hr
+
+/-! ### parseExpr / parseExprList: in bounds, enough fuel, well-shaped items -/
+
+theorem skipSpaces_length : ∀ b : B, (skipSpaces b).length ≤ b.length
+  | [] => by simp [skipSpaces]
+  | c :: rest => by
+    unfold skipSpaces
+    split
+    · have := skipSpaces_length rest; simp; omega
+    · simp
+
+theorem nextTokenIgnoreErr_safe (b : B) :
+    Safe (nextTokenIgnoreErr b) (fun r => ∀ t, r = some t → 1 ≤ t.input.length ∧ t.input.length ≤ b.length) := by
+  have h := nextToken_safe b
+  unfold nextTokenIgnoreErr
+  split
+  · simp [Safe]
+  · exact h
+
+theorem tokInputLen_le {b : B} {t? : Option Token}
+    (h : ∀ t, t? = some t → 1 ≤ t.input.length ∧ t.input.length ≤ b.length) : tokInputLen t? ≤ b.length := by
+  cases t? with
+  | none => simp [tokInputLen]
+  | some t => simpa [tokInputLen] using (h t rfl).2
+
+theorem tokIs_some {t? : Option Token} {k : Nat} (h : tokIs t? k = true) : ∃ t, t? = some t := by
+  cases t? with
+  | none => simp [tokIs] at h
+  | some t => exact ⟨t, rfl⟩
+
+def ExprPost (inp : B) (r : Option Q × Nat) : Prop :=
+  r.2 ≤ inp.length ∧ ∀ q, r.1 = some q → 1 ≤ r.2 ∧ (isDirTok q = true ∨ cleanS q = true)
+def LoopPost (b : B) (r : List Q × B) : Prop :=
+  r.2.length ≤ b.length ∧ ∀ q ∈ r.1, itemOk q = true
+def ListPost (inp : B) (r : List Q × Nat) : Prop :=
+  r.2 ≤ inp.length ∧ ∀ q ∈ r.1, operandOk q = true
+
+theorem parser_safe (O : Oracle) (fuel : Nat) :
+    (∀ inp : B, 3 * inp.length + 1 ≤ fuel → Safe (parseExpr O fuel inp) (ExprPost inp)) ∧
+    (∀ (b : B) (qs : List Q), 3 * b.length + 2 ≤ fuel → (∀ q ∈ qs, itemOk q = true) →
+        Safe (pelLoop O fuel b qs) (LoopPost b)) ∧
+    (∀ inp : B, 3 * inp.length + 3 ≤ fuel → Safe (parseExprList O fuel inp) (ListPost inp)) := by
+  induction fuel with
+  | zero => exact ⟨fun _ h => by omega, fun _ _ h => by omega, fun _ h => by omega⟩
+  | succ fuel ih =>
+    obtain ⟨ihE, ihP, ihL⟩ := ih
+    refine ⟨?_, ?_, ?_⟩
+    · -- parseExpr
+      intro inp hfuel
+      unfold parseExpr
+      simp only
+      have hsk := skipSpaces_length inp
+      refine (nextToken_safe (skipSpaces inp)).bind ?_
+      intro tok? htok
+      cases tok? with
+      | none => simp [Safe, ExprPost]
+      | some tok =>
+        obtain ⟨ht1, ht2⟩ := htok tok rfl
+        simp only
+        refine (sliceFrom_safe _ _ _ ht2).bind ?_
+        intro b1 hb1
+        have hb1len : b1.length + 1 ≤ inp.length := by rw [hb1]; simp; omega
+        by_cases hpo : tok.typ = tokParenOpen
+        · rw [if_pos hpo]
+          refine (ihL b1 (by omega)).bind ?_
+          intro r ⟨hr1, hr2⟩
+          refine (sliceFrom_safe _ _ _ hr1).bind ?_
+          intro b2 hb2
+          refine (nextToken_safe b2).bind ?_
+          intro pTok hp
+          split
+          · refine (sliceFrom_safe _ _ _ (tokInputLen_le hp)).bind ?_
+            intro b3 hb3
+            refine (parseOperators_safe r.1 hr2).bind ?_
+            intro e he
+            have hb3len : b3.length ≤ b1.length := by rw [hb3, hb2]; simp
+            refine (subLen_safe _ _ _ (by omega)).bind ?_
+            intro n hn
+            simp only [Safe, ExprPost]
+            refine ⟨by omega, ?_⟩
+            intro q hq
+            cases hq
+            exact ⟨by omega, Or.inr he⟩
+          · exact Safe.err
+        · rw [if_neg hpo]
+          by_cases hng : tok.typ = tokNegate
+          · rw [if_pos hng]
+            refine (ihE b1 (by omega)).bind ?_
+            intro r ⟨hr1, hr2⟩
+            cases hsub : r.1 with
+            | none => simp only; exact Safe.err
+            | some sub =>
+              simp only
+              obtain ⟨hn1, hshape⟩ := hr2 sub hsub
+              split
+              · exact Safe.err
+              · rename_i hnd
+                refine (sliceFrom_safe _ _ _ hr1).bind ?_
+                intro b2 hb2
+                have hb2len : b2.length ≤ b1.length := by rw [hb2]; simp
+                refine (subLen_safe _ _ _ (by omega)).bind ?_
+                intro n hn
+                simp only [Safe, ExprPost]
+                refine ⟨by omega, ?_⟩
+                intro q hq
+                cases hq
+                refine ⟨by omega, Or.inr ?_⟩
+                rcases hshape with hd | hc
+                · exact absurd (isDirTok_isDirective hd) hnd
+                · simpa [cleanS] using hc
+          · rw [if_neg hng]
+            refine (atomOf_safe O tok).bind ?_
+            intro e he
+            refine (subLen_safe _ _ _ (by omega)).bind ?_
+            intro n hn
+            simp only [Safe, ExprPost]
+            refine ⟨by omega, ?_⟩
+            intro q hq
+            exact ⟨by omega, he q hq⟩
+    · -- pelLoop
+      intro b qs hfuel hqs
+      unfold pelLoop
+      cases b with
+      | nil => simp [Safe, LoopPost]; exact hqs
+      | cons c rest =>
+        simp only
+        have hsk := skipSpaces_length (c :: rest)
+        refine (nextTokenIgnoreErr_safe (skipSpaces (c :: rest))).bind ?_
+        intro tok? htok
+        split
+        · simp only [Safe, LoopPost]; exact ⟨hsk, hqs⟩
+        · split
+          · rename_i hor
+            obtain ⟨t, ht⟩ := tokIs_some hor
+            obtain ⟨ht1, ht2⟩ := htok t ht
+            refine (sliceFrom_safe _ _ _ (tokInputLen_le htok)).bind ?_
+            intro b1 hb1
+            have hb1len : b1.length + 1 ≤ (c :: rest).length := by
+              rw [hb1, ht]; simp only [tokInputLen, List.length_drop]; omega
+            simp only [List.length_cons] at hfuel hb1len
+            refine (ihP b1 (qs ++ [.orOp]) (by omega) ?_).mono ?_
+            · intro q hq
+              simp only [List.mem_append, List.mem_singleton] at hq
+              rcases hq with hq | rfl
+              · exact hqs q hq
+              · simp [itemOk, isOrOp]
+            · intro r ⟨hr1, hr2⟩
+              exact ⟨by simp only [List.length_cons]; omega, hr2⟩
+          · simp only [List.length_cons] at hfuel hsk
+            refine (ihE (skipSpaces (c :: rest)) (by omega)).bind ?_
+            intro r ⟨hr1, hr2⟩
+            cases hq : r.1 with
+            | none => simp only [Safe, LoopPost]; exact ⟨by simpa using hsk, hqs⟩
+            | some q =>
+              simp only
+              obtain ⟨hn1, hshape⟩ := hr2 q hq
+              refine (sliceFrom_safe _ _ _ hr1).bind ?_
+              intro b1 hb1
+              have hb1len : b1.length + 1 ≤ rest.length + 1 := by rw [hb1]; simp only [List.length_drop]; omega
+              refine (ihP b1 (qs ++ [q]) (by omega) ?_).mono ?_
+              · intro x hx
+                simp only [List.mem_append, List.mem_singleton] at hx
+                rcases hx with hx | rfl
+                · exact hqs x hx
+                · rcases hshape with h | h <;> simp [itemOk, h]
+              · intro r' ⟨hr1', hr2'⟩
+                exact ⟨by simp only [List.length_cons]; omega, hr2'⟩
+    · -- parseExprList
+      intro inp hfuel
+      unfold parseExprList
+      refine (ihP inp [] (by omega) (by simp)).bind ?_
+      intro r ⟨hr1, hr2⟩
+      refine (finishList_safe r.1 hr2).bind ?_
+      intro qs hqs
+      refine (subLen_safe _ _ _ hr1).bind ?_
+      intro n hn
+      simp only [Safe, ListPost]
+      exact ⟨by omega, hqs⟩
+
 end ZoektModel.C07
